@@ -259,6 +259,30 @@ func (w *c09World) Run(c *kernel.RunCtx) {
 	for i := 0; i < ntx; i++ {
 		txs = append(txs, genSmallRTx(c, extended))
 	}
+	big := c.RunIdx%40 == 7
+	if big {
+		// quota: one script longer than the decoder's read chunk, so chunk-boundary behaviour is reachable
+		c.Begin("big")
+		n := 65537 + c.Choose(140000)
+		blob := make([]byte, n)
+		for i := range blob {
+			blob[i] = byte(i*7 + n)
+		}
+		t := txs[0]
+		switch c.Choose(3) {
+		case 0:
+			t.Outs = append(t.Outs, models.ROut{Sats: 1, Script: blob})
+		case 1:
+			t.Ins = append(t.Ins, models.RIn{Script: blob, Seq: 1})
+		default:
+			t.Ins = append(t.Ins, models.RIn{PrevScript: blob, Seq: 2})
+			if !extended {
+				t.Ins[len(t.Ins)-1].Script, t.Ins[len(t.Ins)-1].PrevScript = blob, nil
+			}
+		}
+		c.End()
+		c.Count("probe.script_over_64k", 1)
+	}
 	data, fields, ends := models.EncodeList(txs, extended, container == 2, nil)
 	plans := []kernel.Plan{{Kind: 0}, {Kind: 1, EOFWith: true}, kernel.DrawPlan(c.Tape)}
 	// seeded fault positions, drawn up front so enumeration below is replayable
@@ -268,6 +292,19 @@ func (w *c09World) Run(c *kernel.RunCtx) {
 			return f.Off + c.Choose(f.Len+1)
 		}
 		return c.Choose(len(data) + 1)
+	}
+	var special []int
+	for _, f := range fields {
+		if f.Val > 65536 && strings.HasSuffix(f.Name, "_len") {
+			body := f.Off + f.Len
+			for m := 1; uint64(m)*65536 <= f.Val; m++ {
+				for _, d := range []int{-1, 0, 1} {
+					if o := body + m*65536 + d; o >= 0 && o <= len(data) {
+						special = append(special, o)
+					}
+				}
+			}
+		}
 	}
 	c.Begin("seeded-faults")
 	nSeeded := 24
@@ -283,6 +320,11 @@ func (w *c09World) Run(c *kernel.RunCtx) {
 		errWith[i] = c.Bool(1, 2)
 	}
 	c.End()
+	if len(special) > 0 {
+		for i := 0; i < nSeeded && i < len(special); i++ {
+			errOff[i] = special[i] // reader errors at the chunk boundaries too
+		}
+	}
 	if c.WantSample() {
 		c.Sample(map[string]interface{}{"base_stream_hex": hex.EncodeToString(data), "container": container, "extended": extended, "length_fields": len(fields),
 			"faults": fmt.Sprintf("trunc@0..%d, %d fields x %d inflations, %d flips, %d reader errors, JSON path faults", len(data), len(fields), len(inflateNames), nSeeded, nSeeded)})
@@ -292,7 +334,7 @@ func (w *c09World) Run(c *kernel.RunCtx) {
 		streamEP = epTxsReadFrom
 	}
 	eps := []int{streamEP}
-	if container != 2 {
+	if container != 2 && (!big || c.RunIdx%80 == 7) {
 		eps = append(eps, epFromStream)
 		if container == 0 {
 			eps = append(eps, epFromBytes)
@@ -317,13 +359,21 @@ func (w *c09World) Run(c *kernel.RunCtx) {
 		return name
 	}
 
-	// 1. truncation at every offset
+	// 1. truncation at every offset (strided for long streams, plus every 64 KiB boundary inside long fields +-1)
 	stride := 1
 	if len(data) > 600 {
 		stride = len(data)/600 + 1
 	}
-	c.Enumerate("trunc", len(data)/stride+1, func(ki int) {
+	if big {
+		stride = len(data)/150 + 1
+	}
+	nReg := len(data)/stride + 1
+	c.Enumerate("trunc", nReg+len(special), func(ki int) {
 		k := ki * stride
+		if ki >= nReg {
+			k = special[ki-nReg]
+			c.Count("probe.trunc_at_chunk_boundary", 1)
+		}
 		if k > len(data) {
 			k = len(data)
 		}
@@ -447,6 +497,11 @@ func (w *c09World) Run(c *kernel.RunCtx) {
 			return
 		}
 	}
+	if big {
+		// the field decoders see the long script on its own sub-stream; JSON documents stay small
+		w.subUnits(c, txs[0], extended, plans)
+		return
+	}
 	// 4. the field decoders on their own sub-streams
 	w.subUnits(c, txs[0], extended, plans)
 	if c.Failed() {
@@ -500,7 +555,12 @@ func (w *c09World) subUnits(c *kernel.RunCtx, m *models.RTx, extended bool, plan
 	}
 	for ui, u := range units {
 		u := u
-		c.Enumerate(fmt.Sprintf("unit%d-trunc", ui), len(u.body)+1, func(k int) {
+		ustride := len(u.body)/300 + 1
+		c.Enumerate(fmt.Sprintf("unit%d-trunc", ui), len(u.body)/ustride+1, func(k int) {
+			k *= ustride
+			if k > len(u.body) {
+				k = len(u.body)
+			}
 			r := runBinary(c, u.ep, u.body, plans[k%3], k, -1, false, k%4 == 0)
 			c.Count("fault.trunc", 1)
 			judge(c, r, fmt.Sprintf("trunc@%d of %d", k, len(u.body)), k < len(u.body), false, k%4 == 0)
@@ -692,7 +752,7 @@ func clip(s string, n int) string {
 	return s
 }
 
-var jsonMutNames = []string{"delete", "null", "wrong-type", "non-hex", "odd-hex", "array-null", "negative", "huge-number", "empty-object"}
+var jsonMutNames = []string{"delete", "null", "wrong-type", "non-hex", "odd-hex", "array-null", "negative", "huge-number", "empty-object", "long-hex", "short-hex", "empty-string", "very-long-hex"}
 
 // jsonPaths lists every path of a document in a deterministic order.
 func jsonPaths(v interface{}, prefix []string) [][]string {
@@ -819,6 +879,26 @@ func jsonMutate(doc interface{}, p []string, mk int) (interface{}, bool) {
 			return nil, false
 		}
 		set(map[string]interface{}{}, false)
+	case 9:
+		if !isStr {
+			return nil, false
+		}
+		set(cur.(string)+"abcd", false)
+	case 10:
+		if !isStr || len(cur.(string)) < 4 {
+			return nil, false
+		}
+		set(cur.(string)[:(len(cur.(string))/4)*2], false)
+	case 11:
+		if !isStr {
+			return nil, false
+		}
+		set("", false)
+	case 12:
+		if !isStr {
+			return nil, false
+		}
+		set(cur.(string)+strings.Repeat("ab", 300), false)
 	}
 	return root, true
 }
